@@ -20,6 +20,10 @@ TRUSTED = [
     "out-of-bounds writes are OBSERVED through numba's own bounds check (NUMBA_BOUNDSCHECK=1) or plain numpy "
     "indexing (NUMBA_DISABLE_JIT=1): an IndexError there means the default build writes outside the buffer; "
     "a sample of cases also runs in numba's default configuration in isolated child processes",
+    "object identity (Model/ChargeHeap.v): numpy's reference semantics are modelled -- `x += y` writes into the object x "
+    "is bound to, `x = ...` rebinds, basic indexing / .view() / np.asarray share memory, .copy() / np.array / arithmetic "
+    "allocate; the translator classifies expressions with these rules (fail closed on anything it cannot classify); "
+    "pandas >= 3 (copy-on-write): only the SAME DataFrame object is shared, DataFrame(dict of arrays) copies",
     "modelled, not verified: numpy float64 arithmetic on the generated (exactly representable) charge values equals "
     "rational arithmetic; np.floor_divide = floor of the exact quotient of the two binary64 values; boolean-mask "
     "indexing of numpy arrays; pandas concat/query index semantics; numba wraparound indexing (index in [-n,-1] -> "
@@ -271,15 +275,17 @@ CORPUS = [
 ]
 
 
-def load_corpus():
+def load_corpus(heap=False):
     d = core.VERIF / "harness" / "corpus" / "C14"
-    out = [dict(c) for c in CORPUS]
+    out = [dict(c) for c in (HCORPUS if heap else CORPUS)]
     if d.exists():
         for f in sorted(d.glob("*.json")):
             try:
-                out.append(json.loads(f.read_text()))
+                c = json.loads(f.read_text())
             except ValueError:
-                pass
+                continue
+            if bool(c.get("heap")) == heap:
+                out.append(c)
     return out
 
 
@@ -451,6 +457,487 @@ def emit_file(triples, selfcheck=False) -> str:
             + ("Eval vm_compute in selfcheck cases.\n" if selfcheck else ""))
 
 
+
+# ------------------------------------------------------------------------------------------ object identity (heap cases)
+
+HEAP_SIZES = [0.5, 1.0, 2.0, 4.0]
+
+
+def gen_hcase(r, disciplined=None):
+    """Op sequences in which the caller KEEPS the objects it passes and receives and mutates them: the same array object
+    added several times, overwritten between and after the additions, arrays returned by .array / np.asarray / to_xarray
+    overwritten, DataFrames modified after they were added.  `disciplined`: the caller only writes into what it owns
+    (its arrays, its DataFrames, to_xarray results) -- judged by the specification; otherwise it also writes through
+    the views `.array` / `np.asarray` gave it and re-adds them (compared with the model only)."""
+    if disciplined is None:
+        disciplined = r.random() < 0.7
+    g = dict(rows=r.randrange(1, 4), cols=r.randrange(1, 4), ph=r.choice(HEAP_SIZES), pw=r.choice(HEAP_SIZES))
+    g["reset_via"] = r.choice(["charge", "charge", "detector"])
+    ops = []
+    n_args, kinds, df_len = [], [], []          # per arg: shape ok?; per read: kind; per DataFrame: rows
+    added_args, added_dfs = [], []              # objects the container has seen since the last reset
+    labels = 0
+    nops = r.randrange(3, 13)
+
+    def arr(ok=True):
+        return gen_array(r, g, "ok" if ok else "shape")
+
+    def clusters(n):
+        return [gen_cluster(r, g, "inside") for _ in range(n)]
+
+    for t in range(nops):
+        choices = [("new", 10 if len(n_args) < 3 else 2), ("newdf", 6 if len(df_len) < 2 else 1), ("read", 16), ("cl", 5),
+                   ("reset", 5), ("rmall", 2), ("frame", 1)]
+        if n_args:
+            choices += [("add", 26), ("write_arg", 10 + (14 if added_args else 0))]
+        if df_len:
+            choices += [("adddf", 12), ("writedf", 4 + (10 if added_dfs else 0))]
+        if added_dfs or labels:
+            choices += [("rm", 8)]
+        if kinds:
+            choices += [("write_res", 10)]
+            if not disciplined:
+                choices += [("add_res", 5)]
+        k = r.choices([c[0] for c in choices], [c[1] for c in choices])[0]
+        if k == "new":
+            ok = r.random() > 0.06
+            a = arr(ok)
+            if r.random() < 0.03 and ok:
+                a[0][0] = -1.0
+            ops.append(dict(op="new", a=a, dt=r.choice(["f8", "f8", "f8", "f8", "f4", "f2"]), order=r.choice(["C", "C", "F"])))
+            n_args.append((len(a), len(a[0])))
+        elif k == "add":
+            i = r.choice(added_args) if (added_args and r.random() < 0.6) else r.randrange(len(n_args))
+            ops.append(dict(op="add", h=["arg", i], via=r.choice(["direct", "direct", "direct", "view", "ro"])))
+            if n_args[i] == (g["rows"], g["cols"]):
+                added_args.append(i)
+        elif k == "write_arg":
+            i = r.choice(added_args) if (added_args and r.random() < 0.8) else r.randrange(len(n_args))
+            rows, cols = n_args[i]
+            a = gen_array(r, dict(rows=rows, cols=cols), "ok")
+            ops.append(dict(op="write", h=["arg", i], a=a))
+        elif k == "write_res":
+            own = [j for j, kk in enumerate(kinds) if kk == "xr"]
+            if disciplined:
+                if not own:
+                    ops.append(dict(op="xr"))
+                    kinds.append("xr")
+                    continue
+                j = r.choice(own)
+            else:
+                j = r.randrange(len(kinds))
+            ops.append(dict(op="write", h=["res", j], a=arr()))
+        elif k == "add_res":
+            ops.append(dict(op="add", h=["res", r.randrange(len(kinds))], via="direct"))
+        elif k == "newdf":
+            n = r.choice([1, 1, 2, 3])
+            ops.append(dict(op="newdf", cs=clusters(n)))
+            df_len.append(n)
+        elif k == "adddf":
+            i = r.choice(added_dfs) if (added_dfs and r.random() < 0.5) else r.randrange(len(df_len))
+            ops.append(dict(op="adddf", k=i))
+            added_dfs.append(i)
+            labels += df_len[i]
+        elif k == "writedf":
+            i = r.choice(added_dfs) if (added_dfs and r.random() < 0.8) else r.randrange(len(df_len))
+            n = df_len[i] if r.random() < 0.7 else r.randrange(0, df_len[i] + 1)
+            ops.append(dict(op="writedf", k=i, cs=clusters(n)))
+            df_len[i] = n
+        elif k == "cl":
+            n = r.choice([1, 1, 2])
+            ops.append(dict(op="cl", cs=clusters(n)))
+            labels += n
+        elif k == "rm":
+            hi = max(2, min(labels + 2, 8))
+            ids = sorted(set(r.randrange(0, hi) for _ in range(r.choice([1, 1, 2]))))
+            ops.append(dict(op="rm", ids=ids))
+        elif k == "read":
+            kk = r.choice(["read", "read", "xr", "xr", "np"])
+            ops.append(dict(op=kk))
+            kinds.append(kk)
+        elif k == "reset":
+            ops.append(dict(op="reset"))
+            added_args, added_dfs, labels = [], [], 0
+        else:
+            ops.append(dict(op=k))
+            if k == "rmall":
+                labels = 0
+    ops.append(dict(op="read"))
+    return dict(g, ops=ops, stream="alias", heap=True)
+
+
+HENUM_PREFIX = [dict(op="new", a=[[1.0, 0.0]], dt="f8", order="C"), dict(op="newdf", cs=[[16.0, 0.5, 0.5]])]
+HENUM_ALPHABET = [
+    dict(op="add", h=["arg", 0], via="direct"),
+    dict(op="write", h=["arg", 0], a=[[0.0, 2.0]]),
+    dict(op="read"), dict(op="xr"),
+    dict(op="write", h=["res", 0], a=[[4.0, 4.0]]),      # the first read's result: a view (.array) or a copy (to_xarray)
+    dict(op="cl", cs=[[8.0, 0.5, 1.5]]),
+    dict(op="adddf", k=0),
+    dict(op="writedf", k=0, cs=[[32.0, 0.5, 1.5]]),
+    dict(op="rm", ids=[0]),
+    dict(op="reset"),
+]
+
+
+def henum_cases(max_len: int):
+    """EVERY sequence of length 1..max_len over HENUM_ALPHABET on a 1x2 detector, after `new; newdf` and before a final
+    read: exhaustive small-scope coverage of who shares memory with whom (one caller array, one caller DataFrame, the
+    first read's result).  Distinct powers of two, so every mis-accounting and every foreign write shows."""
+    import itertools
+
+    out = []
+    for n in range(1, max_len + 1):
+        for seq in itertools.product(range(len(HENUM_ALPHABET)), repeat=n):
+            ops = [dict(o) for o in HENUM_PREFIX] + [dict(HENUM_ALPHABET[i]) for i in seq] + [dict(op="read")]
+            out.append(dict(rows=1, cols=2, ph=1.0, pw=1.0, reset_via="charge", ops=ops, stream="alias_enum", heap=True))
+    return out
+
+
+HCORPUS = [
+    # the same array object three times (class of seeded C14-m4), then the caller recycles it
+    dict(rows=1, cols=2, ph=1.0, pw=1.0, stream="alias", heap=True,
+         ops=[dict(op="new", a=[[1.0, 2.0]], dt="f8", order="C"), dict(op="add", h=["arg", 0], via="direct"),
+              dict(op="add", h=["arg", 0], via="direct"), dict(op="add", h=["arg", 0], via="direct"), dict(op="read"),
+              dict(op="write", h=["arg", 0], a=[[64.0, 0.0]]), dict(op="read")]),
+    dict(rows=2, cols=2, ph=1.0, pw=2.0, stream="alias", heap=True, reset_via="detector",
+         ops=[dict(op="new", a=[[7.0, 7.0], [7.0, 7.0]], dt="f8", order="F"), dict(op="reset"),
+              dict(op="add", h=["arg", 0], via="view"), dict(op="write", h=["arg", 0], a=[[64.0, 0.0], [0.0, 0.0]]),
+              dict(op="read"), dict(op="cl", cs=[[4.0, 1.5, 2.5]]), dict(op="xr"),
+              dict(op="write", h=["res", 1], a=[[9.0, 9.0], [9.0, 9.0]]), dict(op="np")]),
+    # C14-F7: the DataFrame handed to an EMPTY container was adopted: the caller's later changes reached the charge ...
+    dict(rows=1, cols=2, ph=1.0, pw=1.0, stream="alias", heap=True,
+         ops=[dict(op="newdf", cs=[[5.0, 0.5, 0.5], [6.0, 0.5, 1.5]]), dict(op="adddf", k=0),
+              dict(op="writedf", k=0, cs=[[50.0, 0.5, 0.5], [6.0, 0.5, 0.5]]), dict(op="read")]),
+    # ... and a partial removal removed rows from the caller's DataFrame
+    dict(rows=1, cols=2, ph=1.0, pw=1.0, stream="alias", heap=True,
+         ops=[dict(op="newdf", cs=[[5.0, 0.5, 0.5], [6.0, 0.5, 1.5]]), dict(op="adddf", k=0), dict(op="rm", ids=[1]),
+              dict(op="read"), dict(op="adddf", k=0), dict(op="read")]),
+]
+
+
+def hcl(cs) -> str:
+    return core.clist(ccl(c) for c in cs)
+
+
+def chandle(h) -> str:
+    return f"({'HArg' if h[0] == 'arg' else 'HRes'} {core.cnat(h[1])})"
+
+
+def chop(o) -> str:
+    k = o["op"]
+    if k == "new":
+        return f"HNew {cmat(o['a'])}"
+    if k == "write":
+        return f"HWrite {chandle(o['h'])} {cmat(o['a'])}"
+    if k == "add":
+        return f"HAdd {chandle(o['h'])}"
+    if k == "newdf":
+        return f"HNewDf {hcl(o['cs'])}"
+    if k == "writedf":
+        return f"HWriteDf {core.cnat(o['k'])} {hcl(o['cs'])}"
+    if k == "adddf":
+        return f"HAddDf {core.cnat(o['k'])}"
+    if k == "cl":
+        return f"HCl {hcl(o['cs'])}"
+    if k == "rm":
+        return f"HRemove {core.clist(core.cz(i) for i in o['ids'])}"
+    return {"read": "HRead RkArray", "xr": "HRead RkXr", "np": "HRead RkNp", "frame": "HFrame", "rmall": "HRemoveAll",
+            "reset": "HReset"}[k]
+
+
+def chobs_all(trace) -> str:
+    out, prev = [], []
+    for rec in trace:
+        base = cobs(rec, prev)                 # "(obs, (k, tail))"
+        prev = rec.get("f", [])
+        mem = (f"({core.clist(cmat(a) for a in rec.get('args', []))}, {core.clist(cmat(a) for a in rec.get('xr', []))}, "
+               f"{core.clist(core.clist(f'C {q(c[0])} {q(c[1])} {q(c[2])}' for c in df) for df in rec.get('dfs', []))})")
+        out.append(f"({base[1:-1]}, {mem})")
+    return core.clist(out)
+
+
+def emit_hcase(c, res) -> str:
+    g = (f"{{| g_rows := {core.cnat(c['rows'])}; g_cols := {core.cnat(c['cols'])}; g_ph := {q(c['ph'])}; "
+         f"g_pw := {q(c['pw'])} |}}")
+    return (f"{{| hk_g := {g};\n     hk_ops := {core.clist(chop(o) for o in c['ops'])};\n"
+            f"     hk_obs_d := {chobs_all(res['trace'])} |}}")
+
+
+def emit_hfile(pairs) -> str:
+    body = ";\n  ".join(emit_hcase(c, r) for c, r in pairs)
+    return ("From Coq Require Import ZArith QArith List.\nFrom PyxelV Require Import Model.Charge Model.ChargeHeap.\n"
+            "From PyxelGen Require Import Gen_C14.\n"
+            "Import ListNotations.\nOpen Scope Q_scope.\nDefinition C := Build_cluster.\n"
+            f"Definition cases : list hcase := [\n  {body}\n].\n"
+            "Eval vm_compute in hmismatches hsrc src cases.\n"
+            "Eval vm_compute in hviolations cases.\n"
+            "Eval vm_compute in hfirst_bad_reads cases.\n"
+            "Eval vm_compute in hfirst_bad_mems cases.\n")
+
+
+def caller_memory(ops, trace):
+    """What the caller's own memory must hold after each op: (arrays, to_xarray results, DataFrames) -- the python twin
+    of cm_step / xs_step of Model/ChargeHeap.v, used only to NAME the object a violation is about."""
+    args, xr, dfs, kinds, out = [], [], [], [], []
+    for o, t in zip(ops, trace):
+        k = o["op"]
+        if k == "new":
+            args.append(o["a"])
+        elif k == "write":
+            kind, i = o["h"]
+            if kind == "arg" and i < len(args):
+                args[i] = o["a"]
+            elif kind == "res" and i < len(kinds) and kinds[i] == "xr":
+                xr[sum(1 for x in kinds[:i] if x == "xr")] = o["a"]
+        elif k == "newdf":
+            dfs.append(o["cs"])
+        elif k == "writedf" and o["k"] < len(dfs):
+            dfs[o["k"]] = o["cs"]
+        elif k in ("read", "xr", "np"):
+            kinds.append(k)
+            if k == "xr" and t.get("o") == "arr":
+                xr.append(t["m"])
+        out.append(([list(map(list, a)) for a in args], [list(map(list, a)) for a in xr], [list(map(list, d)) for d in dfs]))
+    return out
+
+
+def hclassify(c, res, k_bad: int, mem: bool) -> str:
+    """Which caller-owned object the container shares memory with, for the failing prefix ops[:k_bad]."""
+    ops = c["ops"][:k_bad]
+    tr = res.get("trace", [])[:k_bad]
+    if mem and len(tr) == len(ops) and ops:
+        want = caller_memory(ops, tr)[-1]
+        got = tr[-1]
+        if got.get("args") != want[0]:
+            return "caller_array_aliased"
+        if got.get("dfs") != want[2]:
+            return "caller_dataframe_aliased"
+        if got.get("xr") != want[1]:
+            return "xarray_result_aliased"
+    names = [o["op"] for o in ops]
+    if any(o["op"] == "write" and o["h"][0] == "res" for o in ops):
+        return "xarray_result_aliased"
+    if "writedf" in names or ("adddf" in names and ("rm" in names or names.count("adddf") > 1)):
+        return "caller_dataframe_aliased"
+    if "add" in names and ("write" in names or names.count("add") > 1):
+        return "caller_array_aliased"
+    if "cl" in names:
+        return "cluster_arrays_aliased"
+    return "aliasing_other"
+
+
+def hprepare(ctx: Ctx, items, tag: str):
+    kept = []
+    for c, r, mode in items:
+        if "crash" in r or "driver_error" in r or "trace" not in r:
+            ctx.broken.append(Broken("correspondence", "implementation driver failed", str(r)[:500], c))
+            continue
+        kept.append((c, r, mode))
+    per = 120 if ctx.quick else 300
+    files = {f"{tag}_{k // per:03d}": emit_hfile([(c, r) for c, r, _ in kept[k:k + per]]) for k in range(0, len(kept), per)}
+    return files, kept, per
+
+
+def hdigest(ctx: Ctx, res, files, kept, per):
+    mism, viol = [], []
+    for k, name in enumerate(sorted(files)):
+        ok, evals, se = res[name]
+        chunk = kept[k * per:(k + 1) * per]
+        if not ok or len(evals) != 4:
+            ctx.broken.append(Broken("correspondence", f"case file {name}.v did not evaluate", core.tail(se, 15)))
+            continue
+        mi = set(core.parse_int_list(evals[0]))
+        vi = core.parse_int_list(evals[1])
+        fr = core.parse_int_list(evals[2])
+        fm = core.parse_int_list(evals[3])
+        for i in sorted(mi):
+            mism.append(chunk[i])
+        for i in vi:
+            viol.append((chunk[i], fr[i], fm[i]))
+    return mism, viol
+
+
+def evaluate_heap(ctx: Ctx, items, tag: str):
+    """items: [(case, result, mode)] -> (mismatch items, [(item, first bad read, first bad mem)] violations, kept)."""
+    files, kept, per = hprepare(ctx, items, tag)
+    res = core.coq_eval_many(ctx, files, timeout=900, par=8)
+    mism, viol = hdigest(ctx, res, files, kept, per)
+    return mism, viol, kept
+
+
+def h_bad(fr: int, fm: int):
+    """(position, is it the memory clause?) of the first failure"""
+    cands = [(x, m) for x, m in ((fr, False), (fm, True)) if x > 0]
+    return min(cands) if cands else (0, False)
+
+
+def to_hviolation(item, fr: int, fm: int, clause=None) -> Violation:
+    c, res, mode = item
+    k_bad, mem = h_bad(fr, fm)
+    clause = clause or hclassify(c, res, k_bad, mem)
+    tr = res.get("trace", [])
+    short = dict(rows=c["rows"], cols=c["cols"], ph=c["ph"], pw=c["pw"], ops=c["ops"][:k_bad], mode=mode, heap=True,
+                 reset_via=c.get("reset_via", "charge"), stream=c.get("stream"))
+    obs = tr[k_bad - 1] if 0 < k_bad <= len(tr) else dict(o="missing")
+    observed = dict(o=obs.get("o"), m=obs.get("m"), args=obs.get("args"), xr=obs.get("xr"), dfs=obs.get("dfs"))
+    if mem:
+        what = (f"{c['rows']}x{c['cols']} pixels: after op {k_bad} ({c['ops'][k_bad - 1]['op']}) the caller's own memory "
+                f"(arrays {observed['args']}, to_xarray results {observed['xr']}, DataFrames {observed['dfs']}) is not what "
+                f"the caller put there: the container wrote into an object it does not own (class {clause})")
+    else:
+        what = (f"{c['rows']}x{c['cols']} pixels: the read after op {k_bad} returns {observed['m']}, which is not the sum of "
+                f"the values the added objects held at the time they were added: the container shares memory with an "
+                f"object the caller owns and mutated (class {clause})")
+    return Violation(clause=clause, case=short, observed=observed,
+                     expected="an addition contributes the value its argument holds at the time of the call; the caller's "
+                              "arrays / DataFrames / to_xarray results are never written by the container",
+                     what=what, sig=dict(clause=clause))
+
+
+def h_drop(ops, i):
+    """ops without op i, handles renumbered; ops that referred to a dropped object are dropped too."""
+    o = ops[i]
+    k = o["op"]
+    out = []
+    arg_i = sum(1 for x in ops[:i] if x["op"] == "new") if k == "new" else None
+    df_i = sum(1 for x in ops[:i] if x["op"] == "newdf") if k == "newdf" else None
+    res_i = sum(1 for x in ops[:i] if x["op"] in ("read", "xr", "np")) if k in ("read", "xr", "np") else None
+    for j, x in enumerate(ops):
+        if j == i:
+            continue
+        x = dict(x)
+        if "h" in x:
+            kind, n = x["h"]
+            if kind == "arg" and arg_i is not None:
+                if n == arg_i:
+                    continue
+                x["h"] = [kind, n - 1 if n > arg_i else n]
+            if kind == "res" and res_i is not None:
+                if n == res_i:
+                    continue
+                x["h"] = [kind, n - 1 if n > res_i else n]
+        if x["op"] in ("adddf", "writedf") and df_i is not None:
+            if x["k"] == df_i:
+                continue
+            x["k"] = x["k"] - 1 if x["k"] > df_i else x["k"]
+        out.append(x)
+    return out
+
+
+def hshrink(ctx: Ctx, item, fr: int, fm: int, rounds: int = 10):
+    c, res, mode = item
+    k_bad, _ = h_bad(fr, fm)
+    if k_bad <= 0:
+        return item, fr, fm
+    cur, cur_res, cur_f = dict(c, ops=c["ops"][:k_bad]), dict(res, trace=res["trace"][:k_bad]), (fr, fm)
+    for rnd in range(rounds):
+        ops = cur["ops"]
+        cands = [dict(cur, ops=h_drop(ops, i)) for i in range(len(ops) - 1)]
+        cands = [cd for cd in cands if cd["ops"]]
+        if not cands:
+            break
+        rs = run_impl(ctx, cands, mode, workers=4)
+        good = [(cd, r) for cd, r in zip(cands, rs) if "trace" in r]
+        if not good:
+            break
+        ok, evals, _ = core.coq_eval(ctx, f"hshrink_{rnd}", emit_hfile(good), timeout=600)
+        if not ok or len(evals) != 4:
+            break
+        frs, fms = core.parse_int_list(evals[2]), core.parse_int_list(evals[3])
+        better = [(h_bad(a, b)[0], cd, r, a, b) for (cd, r), a, b in zip(good, frs, fms) if h_bad(a, b)[0] > 0]
+        if not better:
+            break
+        k, cd, r, a, b = min(better, key=lambda t: (t[0], len(json.dumps(t[1]["ops"]))))
+        cur, cur_res, cur_f = dict(cd, ops=cd["ops"][:k]), dict(r, trace=r["trace"][:k]), (a, b)
+    return (cur, cur_res, mode), cur_f[0], cur_f[1]
+
+
+def report_hviolations(ctx: Ctx, viol):
+    """One shrunk representative per class of shared object (classified again after shrinking: the minimal case names
+    its object precisely), then the rest."""
+    by = {}
+    for item, fr, fm in viol:
+        k_bad, mem = h_bad(fr, fm)
+        by.setdefault(hclassify(item[0], item[1], k_bad, mem), []).append((item, fr, fm))
+    firsts, final = {}, {}
+    for n, (clause, lst) in enumerate(sorted(by.items(), key=lambda kv: min(h_bad(t[1], t[2])[0] for t in kv[1]))):
+        item, fr, fm = min(lst, key=lambda t: (h_bad(t[1], t[2])[0], len(json.dumps(t[0][0]["ops"]))))
+        if n < 5:
+            try:
+                item2, fr2, fm2 = hshrink(ctx, item, fr, fm)
+                v = to_hviolation(item2, fr2, fm2)
+            except Exception as ex:  # noqa: BLE001
+                ctx.log(f"shrink failed ({type(ex).__name__}: {ex}); reporting the unshrunk case")
+                v = to_hviolation(item, fr, fm)
+        else:
+            v = to_hviolation(item, fr, fm)
+        final[clause] = v.clause
+        old = firsts.get(v.clause)
+        if old is None or len(json.dumps(v.case["ops"])) < len(json.dumps(old.case["ops"])):
+            firsts[v.clause] = v
+    ctx.violations += list(firsts.values())
+    # the rest, filed under the class its (shrunk) representative turned out to belong to
+    for item, fr, fm in viol:
+        k_bad, mem = h_bad(fr, fm)
+        ctx.violations.append(to_hviolation(item, fr, fm, clause=final.get(hclassify(item[0], item[1], k_bad, mem))))
+
+
+def h_disciplined(c) -> bool:
+    kinds = []
+    for o in c["ops"]:
+        if o["op"] in ("write", "add") and o["h"][0] == "res":
+            j = o["h"][1]
+            if o["op"] == "add" or j >= len(kinds) or kinds[j] != "xr":
+                return False
+        if o["op"] in ("read", "xr", "np"):
+            kinds.append(o["op"])
+    return True
+
+
+def h_events(c) -> set:
+    """Aliasing situations a heap sequence goes through (read off the op list)."""
+    ev = set()
+    adds, live_adds, df_added, kinds, since_reset_arr = {}, set(), set(), [], 0
+    for o in c["ops"]:
+        k = o["op"]
+        if k == "add" and o["h"][0] == "arg":
+            i = o["h"][1]
+            adds[i] = adds.get(i, 0) + 1
+            live_adds.add(i)
+            if adds[i] >= 3:
+                ev.add("same_array_added_3_times")
+            elif adds[i] == 2:
+                ev.add("same_array_added_twice")
+            if since_reset_arr == 0:
+                ev.add("first_array_addition_since_reset")
+            since_reset_arr += 1
+            if o.get("via") != "direct":
+                ev.add("array_passed_as_" + o.get("via", "direct"))
+        elif k == "add":
+            ev.add("read_result_added_back")
+        elif k == "write" and o["h"][0] == "arg":
+            ev.add("caller_array_overwritten_after_add" if o["h"][1] in live_adds else "caller_array_overwritten_before_add")
+        elif k == "write":
+            j = o["h"][1]
+            kk = kinds[j] if j < len(kinds) else None
+            ev.add({"xr": "xarray_result_overwritten", "read": "array_view_overwritten", "np": "asarray_view_overwritten"}
+                   .get(kk, "write_to_unknown_result"))
+        elif k == "adddf":
+            ev.add("dataframe_added_again" if o["k"] in df_added else "dataframe_added")
+            df_added.add(o["k"])
+        elif k == "writedf":
+            ev.add("dataframe_modified_after_add" if o["k"] in df_added else "dataframe_modified_before_add")
+        elif k == "rm" and df_added:
+            ev.add("removal_after_dataframe_added")
+        elif k in ("read", "xr", "np"):
+            kinds.append(k)
+        elif k == "reset":
+            adds, live_adds, since_reset_arr = {}, set(), 0
+            ev.add("reset")
+    return ev
+
+
 # ------------------------------------------------------------------------------------------ legs
 
 
@@ -470,8 +957,8 @@ def run_impl(ctx: Ctx, cases, mode: str, workers=8, batch=None, per_child=1):
     return res
 
 
-def evaluate(ctx: Ctx, items, tag: str):
-    """items: [(case, result, mode)] -> (mismatch items, [(item, first_bad)] violations)."""
+def prepare(ctx: Ctx, items, tag: str):
+    """items: [(case, result, mode)] -> (case files, kept items, cases per file)."""
     triples = []
     kept = []
     for c, r, mode in items:
@@ -483,7 +970,11 @@ def evaluate(ctx: Ctx, items, tag: str):
     per = 80 if ctx.quick else 160
     files = {f"{tag}_{k // per:03d}": emit_file(triples[k:k + per], selfcheck=not ctx.quick)
              for k in range(0, len(triples), per)}
-    res = core.coq_eval_many(ctx, files, timeout=900, par=8)
+    return files, kept, per
+
+
+def digest(ctx: Ctx, res, files, kept, per):
+    """-> (mismatch items, [(item, first_bad, mismatching)] violations)."""
     mism, viol = [], []
     for k, name in enumerate(sorted(files)):
         ok, evals, se = res[name]
@@ -502,6 +993,14 @@ def evaluate(ctx: Ctx, items, tag: str):
         for i in sc:
             ctx.broken.append(Broken("correspondence", "specification self-check (ideal container vs accumulator)",
                                      "the two executable forms of the specification disagree", chunk[i][0]))
+    return mism, viol
+
+
+def evaluate(ctx: Ctx, items, tag: str):
+    """items: [(case, result, mode)] -> (mismatch items, [(item, first_bad)] violations)."""
+    files, kept, per = prepare(ctx, items, tag)
+    res = core.coq_eval_many(ctx, files, timeout=900, par=8)
+    mism, viol = digest(ctx, res, files, kept, per)
     return mism, viol, kept
 
 
@@ -671,6 +1170,48 @@ def correspondence(ctx: Ctx, plan, tag="c"):
     return out
 
 
+def hcorrespondence(ctx: Ctx, plan, tag="h"):
+    """plan: [(heap cases, mode, workers)]"""
+    items = []
+    ph = ctx.cov.setdefault("phase_seconds", {})
+    for cases, mode, workers in plan:
+        t = time.time()
+        rs = run_impl(ctx, cases, mode, workers=workers)
+        ph[f"{tag}:impl:{mode}"] = round(ph.get(f"{tag}:impl:{mode}", 0) + time.time() - t, 1)
+        items += [(c, r, mode) for c, r in zip(cases, rs)]
+    t = time.time()
+    out = evaluate_heap(ctx, items, tag)
+    ph[f"{tag}:coq_eval"] = round(time.time() - t, 1)
+    return out
+
+
+H_NONTRIVIAL = {"same_array_added_twice", "same_array_added_3_times", "caller_array_overwritten_after_add",
+                "xarray_result_overwritten", "array_view_overwritten", "asarray_view_overwritten",
+                "dataframe_added_again", "dataframe_modified_after_add", "removal_after_dataframe_added",
+                "read_result_added_back"}
+
+
+def haccount(ctx: Ctx, kept):
+    seen = set()
+    for c, r, mode in kept:
+        ev = h_events(c)
+        for e in sorted(ev):
+            ctx.dist("aliasing_situation", e)
+        ctx.count("evaluations", len(r.get("trace", [])))
+        ctx.count("sequences")
+        ctx.count("heap_sequences")
+        ctx.dist("mode", mode)
+        ctx.dist("stream", c.get("stream"))
+        ctx.dist("heap_caller", "disciplined (judged)" if h_disciplined(c) else "writes through views (compared only)")
+        for o in c["ops"]:
+            ctx.dist("heap_op", o["op"])
+            if o["op"] == "new":
+                ctx.dist("heap_array_dtype", o.get("dt", "f8") + "/" + o.get("order", "C"))
+        if ev & H_NONTRIVIAL:
+            seen.add(json.dumps({k: c[k] for k in ("rows", "cols", "ph", "pw", "ops")}, sort_keys=True))
+    return seen
+
+
 def proof(ctx: Ctx):
     """Regenerate Gen_C14.v from the source under test, compile it and the property file.  Whatever happens,
     leave a compiled Gen_C14 behind (the FALLBACK if need be) so that the case files have a model."""
@@ -696,7 +1237,11 @@ def run(ctx: Ctx):
         "array additions are non-negative (cases with negative entries are compared with the model but not judged)",
         "pixel sizes > 0; charge values are small dyadic numbers so that float sums are exact; positions and pixel "
         "sizes are arbitrary binary64 values taken as the exact rationals they are",
-        "only Charge built by a Detector and clusters added through Charge.add_charge (RangeIndex frames)",
+        "only Charge built by a Detector and clusters added through Charge.add_charge / add_charge_dataframe with "
+        "DataFrames built by Charge.create_charges (RangeIndex frames)",
+        "heap sequences: the theorems and the judge cover callers that write only into objects they own (their arrays "
+        "and DataFrames, to_xarray results); sequences that also write through the views `.array` / np.asarray hand out "
+        "(the container's own buffer, as coded) are compared with the model but not judged",
     ]
     t = time.time()
     proof(ctx)
@@ -731,12 +1276,40 @@ def run(ctx: Ctx):
         (dflt, "default", 4, None, 20),
         (unsafe, "default", 6, 2, 1),
     ]
-    mism, viol, kept = correspondence(ctx, plan)
+    # object identity: the caller keeps and mutates what it passes to / receives from the container
+    rh = ctx.rng("heap")
+    hcorpus = load_corpus(heap=True)
+    henum = henum_cases(ctx.budget(3, 4))
+    ctx.cov["exhaustive_small_scope_heap"] = dict(alphabet=len(HENUM_ALPHABET), max_len=ctx.budget(3, 4),
+                                                  sequences=len(henum))
+    hfast = hcorpus + henum + [gen_hcase(rh) for _ in range(ctx.budget(320, 3000))]
+    hjit = hcorpus + [gen_hcase(rh) for _ in range(ctx.budget(24, 300))]
+    # all implementation runs first, then ONE parallel evaluation of every case file inside Coq
+    ph = ctx.cov.setdefault("phase_seconds", {})
+    items, hitems = [], []
+    for cases, mode, workers, batch, per_child in plan:
+        t = time.time()
+        rs = run_impl(ctx, cases, mode, workers=workers, batch=batch, per_child=per_child)
+        ph[f"c:impl:{mode}"] = round(ph.get(f"c:impl:{mode}", 0) + time.time() - t, 1)
+        items += [(c, rr, mode) for c, rr in zip(cases, rs)]
+    for cases, mode, workers in [(hfast, "nojit", 6), (hjit, "checked", 4)]:
+        t = time.time()
+        rs = run_impl(ctx, cases, mode, workers=workers)
+        ph[f"h:impl:{mode}"] = round(time.time() - t, 1)
+        hitems += [(c, rr, mode) for c, rr in zip(cases, rs)]
+    t = time.time()
+    files, kept, per = prepare(ctx, items, "c")
+    hfiles, hkept, hper = hprepare(ctx, hitems, "h")
+    res = core.coq_eval_many(ctx, {**files, **hfiles}, timeout=900, par=8)
+    mism, viol = digest(ctx, res, files, kept, per)
+    hmism, hviol = hdigest(ctx, res, hfiles, hkept, hper)
+    ph["coq_eval"] = round(time.time() - t, 1)
     seen = account(ctx, kept)
     ctx.cov["distinct_nontrivial"] = len(seen)
     ctx.cov["rule"] = ("op sequences (1-10 ops + a final read) on a real detector.charge; non-trivial = mixes array and "
-                       "cluster additions, or contains a removal, or a cluster outside the sensitive area; distinct = "
-                       "distinct (geometry, op list)")
+                       "cluster additions, or contains a removal, or a cluster outside the sensitive area, or (heap "
+                       "sequences) re-adds an object / overwrites an object the container has seen or handed out; "
+                       "distinct = distinct (geometry, op list)")
     ctx.cov["traces_validated_against_impl"] = len(kept)
     ctx.cov["disagreements_checked"] = len(mism)
     unsafe_seen = [(c, rr) for c, rr, m in kept if m == "default" and case_features(c)["beyond"]]
@@ -746,6 +1319,15 @@ def run(ctx: Ctx):
         ctx.sample(dict(geometry=[c["rows"], c["cols"], c["ph"], c["pw"]], ops=c["ops"][:4], n_ops=len(c["ops"]),
                         mode=m, last=rr["trace"][-1] if rr.get("trace") else None))
     report_violations(ctx, viol)
+    seen |= haccount(ctx, hkept)
+    ctx.cov["distinct_nontrivial"] = len(seen)
+    ctx.cov["traces_validated_against_impl"] = len(kept) + len(hkept)
+    ctx.cov["disagreements_checked"] = len(mism) + len(hmism)
+    for c, rr, m in hkept[len(hcorpus) + len(henum):len(hcorpus) + len(henum) + 2]:
+        ctx.sample(dict(geometry=[c["rows"], c["cols"], c["ph"], c["pw"]], heap_ops=c["ops"][:6], n_ops=len(c["ops"]),
+                        mode=m, last={k: v for k, v in rr["trace"][-1].items() if k != "f"} if rr.get("trace") else None))
+    report_hviolations(ctx, hviol)
+    mism = mism + hmism
     (ctx.build / "mismatches.json").write_text(json.dumps(
         [dict(case=c, observed=rr, mode=m) for c, rr, m in mism[:20]], indent=1))
     for c, rr, m in mism:
@@ -770,7 +1352,10 @@ def search(ctx: Ctx):
              for _ in range(ctx.budget(2500, 8000))]
     mism, viol, kept = correspondence(ctx, [(cases, "nojit", 8, None, 1)], tag="s")
     report_violations(ctx, viol)
-    ctx.cov["search_sequences"] = len(kept)
+    hcases = [gen_hcase(r, disciplined=True) for _ in range(ctx.budget(1500, 6000))]
+    hmism, hviol, hkept = hcorrespondence(ctx, [(hcases, "nojit", 8)], tag="sh")
+    report_hviolations(ctx, hviol)
+    ctx.cov["search_sequences"] = len(kept) + len(hkept)
 
 
 def replay(ctx: Ctx, rp: dict) -> int:
@@ -780,6 +1365,8 @@ def replay(ctx: Ctx, rp: dict) -> int:
         print(rp.get("detail", ""))
         return 1
     mode = case.get("mode", "nojit")
+    if case.get("heap"):
+        return replay_heap(ctx, case, mode)
     c = {k: case[k] for k in ("rows", "cols", "ph", "pw", "ops")}
     c["reset_via"] = case.get("reset_via", "charge")
     c["stream"] = case.get("stream")
@@ -789,7 +1376,7 @@ def replay(ctx: Ctx, rp: dict) -> int:
     res = run_impl(ctx, [c], mode, workers=1)[0]
     print("case:", json.dumps(c))
     print("implementation now returns:", json.dumps([dict(o=t.get("o"), m=t.get("m")) for t in res.get("trace", [])]))
-    core.ensure_lib(ctx, targets=["theories/Model/Charge.vo"])
+    core.ensure_lib(ctx, targets=["theories/Model/Charge.vo", "theories/Model/ChargeHeap.vo"])
     from translator import c14 as tr
 
     gen = ctx.build / "gen"
@@ -813,6 +1400,42 @@ def replay(ctx: Ctx, rp: dict) -> int:
     return 1 if bad else 0
 
 
+def compile_gen(ctx: Ctx):
+    core.ensure_lib(ctx, targets=["theories/Model/Charge.vo", "theories/Model/ChargeHeap.vo"])
+    from translator import c14 as tr
+
+    gen = ctx.build / "gen"
+    gen.mkdir(parents=True, exist_ok=True)
+    try:
+        text = tr.translate(ctx.repo)
+    except TranslationError:
+        text = tr.FALLBACK
+    (gen / "Gen_C14.v").write_text(text)
+    okg, _, _ = core.coqc(ctx, gen / "Gen_C14.v", [(gen, "PyxelGen")], 300)
+    if not okg:
+        (gen / "Gen_C14.v").write_text(tr.FALLBACK)
+        core.coqc(ctx, gen / "Gen_C14.v", [(gen, "PyxelGen")], 300)
+
+
+def replay_heap(ctx: Ctx, case: dict, mode: str) -> int:
+    c = {k: case[k] for k in ("rows", "cols", "ph", "pw", "ops")}
+    c.update(heap=True, reset_via=case.get("reset_via", "charge"), stream=case.get("stream"))
+    res = run_impl(ctx, [c], mode if mode in ("nojit", "checked") else "nojit", workers=1)[0]
+    print("case:", json.dumps(c))
+    print("implementation now returns:", json.dumps([{k: v for k, v in t.items() if k in ("o", "m", "args", "xr", "dfs")}
+                                                     for t in res.get("trace", [])]))
+    compile_gen(ctx)
+    ok, evals, se = core.coq_eval(ctx, "replay", emit_hfile([(c, res)]))
+    if not ok or len(evals) != 4:
+        print("case file did not evaluate:", core.tail(se, 10))
+        return 1
+    bad = core.parse_int_list(evals[1]) != []
+    print("model vs implementation:", "DIFFER" if core.parse_int_list(evals[0]) else "agree")
+    print("specification (evaluated in Coq):", "VIOLATED" if bad else "holds",
+          f"(first bad read {core.parse_int_list(evals[2])}, first foreign write {core.parse_int_list(evals[3])})")
+    return 1 if bad else 0
+
+
 META = dict(
     level_text=(
         "Coq theorems, for ALL operation sequences (induction over op lists, no bound on sizes), about an executable "
@@ -828,15 +1451,26 @@ META = dict(
         "translator reads in charge.py / geometry.py on every run -- and C14_source_is_model re-proves that these are "
         "the model's. That the rest of the model describes the Python is established by correspondence (= testing): "
         "generated op sequences run on a real detector.charge and are compared with the model inside Coq after "
-        "every op; the implementation's reads are judged inside Coq against the accumulator / ideal container."),
+        "every op; the implementation's reads are judged inside Coq against the accumulator / ideal container. "
+        "Object identity: a second machine (Model/ChargeHeap.v) runs the same container on a small heap -- Charge._array "
+        "is a reference, add_charge_array receives the caller's array OBJECT, reads hand out objects, and the caller may "
+        "overwrite any object it holds, re-add it, modify an added DataFrame; theorems for ALL such sequences by a caller "
+        "that writes only into what it owns: every observation equals that of the by-value history (an addition "
+        "contributes the value its argument held at the time of the call), hence the accumulator / ledger; the caller's "
+        "arrays and DataFrames hold exactly what the caller put there; a to_xarray result is a snapshot. What the source "
+        "shares (in-place `+=` vs rebinding to the argument, what .array / __array__ / to_xarray return, any binding of "
+        "self._array / self._frame to a parameter) is regenerated by the translator (hsrc) and C14_heap_source_is_model "
+        "re-proves on every run that nothing the caller owns is kept or written."),
     level_note=(
         "Trusted: Coq kernel + vm_compute; the translator (fail closed), the correspondence harness and driver; numpy "
         "float sums are exact on the generated dyadic charge values; np.floor_divide is the floor of the exact "
         "quotient of the two binary64 values; pandas index semantics; out-of-bounds accesses are observed via numba's "
         "bounds check / plain numpy indexing (IndexError), with a sample in the default configuration in isolated "
         "processes. Not carried: negative array entries (outside the property's hypothesis: compared with the model, "
-        "not judged); user-supplied DataFrames with arbitrary indexes; set_frame_values; Charge.__array__."),
-    technique="Coq refinement + simulation proofs (state machine over Q vs accumulator / ledger / ideal container), "
-              "translator-regenerated index arithmetic, in-Coq correspondence/spec evaluation",
+        "not judged); user-supplied DataFrames with arbitrary indexes; set_frame_values; writes through the views "
+        "`.array` / np.asarray expose (modelled and compared, not judged)."),
+    technique="Coq refinement + simulation proofs (state machine over Q vs accumulator / ledger / ideal container; heap "
+              "machine with object identity vs the by-value machine), translator-regenerated index arithmetic and "
+              "sharing audit, in-Coq correspondence/spec evaluation",
     design_ref="DESIGN.md section 6, C14",
 )
